@@ -1,1 +1,27 @@
-fn main(){}
+//! thrsim — thread scenarios for C16 (sync feature: shareable across threads).
+//!
+//! The same binary is run (a) natively in `seq` mode to obtain the sequential
+//! result line and (b) under Miri in `threads` mode, where Miri's seeded
+//! scheduler decides every interleaving and its data-race detector watches
+//! the real `Arc`, `Once`/`lazy_static` and allocator traffic.
+//!
+//!   thrsim --seed S --index I --mode seq|threads
+//!   thrsim --scenario '<json>' --mode seq|threads
+//!   thrsim --seed S --index I --print        (prints the scenario as JSON)
+//!
+//! Needs `--features sync`; without it the binary only says so.
+
+#[cfg(feature = "sync")]
+mod obligations;
+#[cfg(feature = "sync")]
+mod scen;
+
+fn main() {
+    #[cfg(feature = "sync")]
+    scen::main();
+    #[cfg(not(feature = "sync"))]
+    {
+        eprintln!("thrsim: build with --features sync");
+        std::process::exit(2);
+    }
+}
